@@ -38,6 +38,9 @@ EXPLANATION += " Added: (R7) default templates have the structure the program's 
 TECHNIQUE += '; rendering routine and default atom lines interpreted on model objects'
 EXPLANATION += " R1 / R2 no longer match statement shapes of the shared routine: the routine is interpreted with a recording atom-line function on objects with 0, 1 and 4 atoms (a ghost centre and a repeated element included), and each program's default atom-line function -- captured from `write_input` called without one -- on a model object with angstrom standing for 2. R3 includes the default multiplicity for objects whose electron count is odd."
 # --- end metadata batch 8
+# --- metadata added for batch 9
+EXPLANATION += ' R2: the model molecule contains an atom thousands of angstrom away with negative coordinates (fixed-width columns must stay separated).'
+# --- end metadata batch 9
 TRUSTED = ["CPython ast parser", "int() truncates toward zero; round/np.round/np.rint round to nearest", "str.format(**fields) takes the last value stored under a key"]
 
 ROUNDERS = {"round", "rint", "around"}
